@@ -25,6 +25,7 @@ import ASV.Proofs.RotateLoc
 import ASV.Model.Pipeline
 import ASV.Proofs.RulesetSelection
 import ASV.Proofs.RuleOrderPerm
+import ASV.Proofs.MergeApart
 import ASV.Props.C02
 namespace ASV.C07
 open ASV ASV.Rules ASV.Proto ASV.Chains
@@ -339,6 +340,15 @@ theorem extenders_rule_order_invariant (within : Lookup) (r : Rec) (rules rules'
 theorem per_item_loops_commute_with_reordering {α β : Type} (f : α → E β) {l l' : List α} (hp : l.Perm l')
     (out : List β) (h : l.mapM f = .ok out) : ∃ out', l'.mapM f = .ok out' ∧ out.Perm out' :=
   mapM_perm f hp out h
+
+/-- **The merge loop of `merge_over_origin` changes nothing when the protoclusters of the product stay apart**
+    (`Apart`: no core shares a base with the cutoff-extended core of another one of the group): the group is
+    sorted by the start of the extended core and returned as it is — a rearrangement of the input, whatever
+    the ruleset and its order (the loop consults the ruleset only when it merges). -/
+theorem merge_loop_is_identity_when_apart (r : Rec) (rules : List RuleM) (cutoff : Int) (fuel : Nat)
+    (g : List (PC × Loc)) (h : Apart g) :
+    mergeFix r rules cutoff fuel (sortByStart g) = .ok (sortByStart g) ∧ (sortByStart g).Perm g :=
+  ⟨mergeFix_id_of_apart r rules cutoff fuel _ (h.of_perm (sortByStart_perm g).symm), sortByStart_perm g⟩
 
 /-- **The only sanctioned cross-rule effect, definition-domain side** (`strip_inferior_domains`): the
     domains recorded for (gene, rule) are removed exactly when the gene also has an entry for one of the
@@ -1005,5 +1015,19 @@ example :
     run [d1Rule "r1" 20000, d1Rule "r2" 2000, d1Rule "r3" 20000] = some ["r1", "r3"] ∧
     run [d1Rule "r3" 20000, d1Rule "r1" 20000, d1Rule "r2" 2000] = some ["r3", "r1"] := by
   decide +kernel
+
+/-- non-vacuity of `merge_loop_is_identity_when_apart`: two protoclusters of one rule, cores [50,60) and
+    [10,20), cutoff-extended by 5: apart; the loop returns them sorted by start -/
+example :
+    let g : List (PC × Loc) :=
+      [(⟨"r", .simple ⟨50, 60, .fwd⟩, .simple ⟨45, 65, .fwd⟩⟩, .simple ⟨45, 65, .fwd⟩),
+       (⟨"r", .simple ⟨10, 20, .fwd⟩, .simple ⟨5, 25, .fwd⟩⟩, .simple ⟨5, 25, .fwd⟩)]
+    Apart g ∧ (sortByStart g).map (·.1.core) = [.simple ⟨10, 20, .fwd⟩, .simple ⟨50, 60, .fwd⟩] := by
+  refine ⟨?_, by decide⟩
+  refine List.Pairwise.cons ?_ (List.Pairwise.cons (fun _ h => by cases h) List.Pairwise.nil)
+  intro y hy
+  simp only [List.mem_singleton] at hy
+  subst hy
+  exact ⟨by decide, by decide⟩
 
 end ASV.C07
